@@ -902,7 +902,9 @@ func probeStandIn(lab *atlab.Lab) {
 }
 
 type e2eLab struct {
-	lab *atlab.Lab
+	lab      *atlab.Lab
+	orphaned bool // a rollback without undo log has been delivered in this process
+	norphan  int
 }
 
 func openE2E(o *common.Opts) *e2eLab {
@@ -1096,6 +1098,15 @@ func runE2E(e *e2eLab, t *trace.T, sc scenario, r *rand.Rand) (aborted bool) {
 		lab.Srv.MustExec(fmt.Sprintf("INSERT INTO %s (id, c_mark) VALUES (100, 'bystander')", table))
 	}
 	h0 := lab.Srv.SnapshotHash(table)
+	// now and then (and before the first flush of the process) a rollback arrives for a branch that wrote no undo
+	// log (its phase one died before the flush): the client answers by storing a "global finished" marker row whose
+	// context is written by the same encoder as a real log's - with today's compress type, not "None".  Whatever
+	// that leaves behind in the process must not leak into the context of the logs flushed afterwards.
+	if !e.orphaned || r.Intn(4) == 0 {
+		e.orphaned = true
+		e.norphan++
+		_, _ = lab.Rollback(fmt.Sprintf("10.0.0.1:8091:%d", 880000+e.norphan), int64(990000+e.norphan), 0) // its answer is C10's business
+	}
 
 	var q string
 	var args []interface{}
